@@ -7,7 +7,7 @@ C08 — line-protocol driver.
   run <now> <due> <msg> ...  one SocketDriver.run(); each message is hexcmd;hexargs;hexnick
 Observation (TAB separated): outs fsm ls req ack nak next cur auth dec nick after exc
 -/
-import LimnoriaModel.C08.Model
+import LimnoriaModel.C08.Progress
 import LimnoriaModel.Driver.Core
 namespace C08
 open Py Wire
@@ -121,6 +121,10 @@ def observe (s : St) (outs : List Out) (exc : Option String) : String :=
 structure DState where
   cfg : Option Cfg := none
   st : St := {}
+  -- the conformant-server monitor of Progress.lean, run alongside stub-driver histories
+  view : View := { v3 := true }
+  accepted : Nat := 0        -- server messages accepted by the relation `SrvMove` so far
+  rejected : Nat := 0        -- … and refused (the history then lies outside the domain of `progress`)
 
 def obsR (r : StepResult) : String := observe r.st (r.fast ++ r.slow ++ r.events) r.exc
 
@@ -154,13 +158,17 @@ def stepD (d : DState) : List String → DState × String
                          db := db, now := fNat fs "now", drv := { current := stub } }
       let r := start cfg base
       -- with the real driver nobody has taken the connect messages yet: they stay queued
-      ({ cfg := some cfg, st := if cfg.realDriver then { initSt cfg base with ev := [] } else r.st }, obsR r)
+      ({ cfg := some cfg, st := if cfg.realDriver then { initSt cfg base with ev := [] } else r.st,
+         view := seeStep { v3 := !(fBool fs "nov3") } r }, obsR r)
     | _, _, _ => (d, "bad-op")
   | ["msg", c, a, n] =>
     match d.cfg, dec c, decList a, dec n with
     | some cfg, some c, some a, some n =>
       let r := step cfg d.st ⟨c, a, n⟩
-      ({ d with st := r.st }, obsR r)
+      let d' : DState := match srvMoveB d.view ⟨c, a, n⟩ with
+        | some v1 => if d.rejected = 0 && !d.view.aborted then { d with view := seeStep v1 r, accepted := d.accepted + 1 } else d
+        | none => if d.view.aborted then d else { d with rejected := d.rejected + 1 }
+      ({ d' with st := r.st }, obsR r)
     | _, _, _, _ => (d, "bad-op")
   | ["reset"] =>
     match d.cfg with
@@ -168,6 +176,11 @@ def stepD (d : DState) : List String → DState × String
       let r := applyOp cfg d.st .reset
       ({ d with st := r.st }, obsR r)
     | none => (d, "bad-op")
+  | ["viewq"] =>
+    -- the conclusion of theorem `progress`, evaluated on the model, for histories the relation accepted
+    let v := d.view
+    let owes := (v.v3 && (v.lsOwed || !v.reqs.isEmpty || v.auth != .none)) || (canWelcome v && decide (v.stage < 7))
+    (d, s!"acc={d.accepted} rej={d.rejected} after={if d.st.afterConnect then 1 else 0} aborted={if v.aborted then 1 else 0} owes={if owes then 1 else 0}")
   | ["dstart"] =>
     match d.cfg with
     | some cfg => let s := drvStart cfg d.st; ({ d with st := s }, observeD s)
